@@ -44,9 +44,11 @@ pub assume_specification [core::time::Duration::subsec_nanos] (d: &core::time::D
     u.raw('}\nimpl NaiveTime {')
     for n in ['from_hms_opt', 'from_hms_milli_opt', 'from_hms_micro_opt', 'from_hms_nano_opt',
               'from_num_seconds_from_midnight_opt', 'hms', 'num_seconds_from_midnight', 'nanosecond',
-              'overflowing_add_signed', 'overflowing_sub_signed', 'signed_duration_since',
+              'overflowing_sub_signed', 'signed_duration_since',
               'overflowing_add_offset', 'overflowing_sub_offset']:
         u.prove(F, n, IMPL, cid='NaiveTime::' + n)
+    u.prove(F, 'overflowing_add_signed', IMPL, cid='NaiveTime::overflowing_add_signed',
+            hints=[("let secs_in_day = secs.rem_euclid(86_400);", "        proof { pos_mod_day(secs as int, frac as int); }")])
     for n in ['hour', 'minute', 'second', 'nanosecond', 'with_hour', 'with_minute', 'with_second', 'with_nanosecond',
               'num_seconds_from_midnight']:
         u.prove(F, n, TL, cid='NaiveTime::Timelike__' + n, rename='Timelike__' + n)
